@@ -84,6 +84,8 @@ def gen_state(R, names, wide=False):
     st = ref.cal_from_date(d)
     has_tag = any(n in names for n in ("TAG", "PYTAG"))
     tag = R.choice(ref.TAG_LIST) if has_tag else "final"
+    if "TAG" in names and "PYTAG" not in names and R.random() < 0.08:
+        tag = "preview"
     has_num = "NUM" in names
     st.update(
         major=R.choice([0, 0, 1, 2, 9, 10, 99, 100]), minor=R.choice([0, 0, 1, 9, 10, 99]),
